@@ -441,6 +441,14 @@ def f_occ(tier="quick", seed=0):
          {"(M, K, J)": ["flatten()"]}, ["MKJ", "N"], {"M": 2, "K": 2, "J": 2, "N": 2})
     core("flat-out-adjacent", {"A": ["K", "M", "N"], "B": ["K", "M", "N"], "Z": ["M", "N"]}, ["Z[m, n] = A[k, m, n] * B[k, m, n]"],
          {"(M, N)": ["flatten()"]}, ["K", "MN"], {"K": 2, "M": 2, "N": 2})
+    gd = {"A": ["K", "M"], "B": ["K", "N"], "Z": ["M", "N"]}
+    ge = ["Z[m, n] = A[k, m] * B[k, n]"]
+    core("flat+lookup-occ", gd, ge, {"(M, K)": ["flatten()"], "N": ["uniform_occupancy(B.2)"]}, ["MK", "N1", "N0"], {"K": 2, "M": 2, "N": 3})
+    core("flat+lookup-shape", gd, ge, {"(M, K)": ["flatten()"], "N": ["uniform_shape(2)"]}, ["MK", "N1", "N0"], {"K": 2, "M": 2, "N": 3})
+    core("sigma+lookup-occ", gd, ge, {"K": ["uniform_shape(2)"], "(M, K0)": ["flatten()"], "N": ["uniform_occupancy(B.2)"]},
+         ["K1", "MK0", "N1", "N0"], {"K": 4, "M": 2, "N": 3})
+    core("sigma+occ+lookup-occ", gd, ge, {"K": ["uniform_shape(2)"], "(M, K0)": ["flatten()"], "MK0": ["uniform_occupancy(A.2)"],
+                                          "N": ["uniform_occupancy(B.2)"]}, ["K1", "MK01", "N1", "MK00", "N0"], {"K": 4, "M": 2, "N": 3})
     core("flat-first-then-occ", {"A": ["K", "M", "N"], "B": ["K", "M", "N"], "Z": ["N"]}, ["Z[n] = A[k, m, n] * B[k, m, n]"],
          {"(K, M)": ["flatten()"], "KM": ["uniform_occupancy(A.3)"]}, ["KM1", "KM0", "N"], {"K": 2, "M": 2, "N": 2})
     # accelerator mappings with architecture stripped, sizes scaled to the extents
